@@ -14,16 +14,127 @@ RULE = ("random abstract DSLs of families F1-F6 (1-3 base types, arities 0-3, hi
         "grammar a candidate set of applicative terms from an independent brute-force enumerator that ignores forbidden "
         "patterns / variable depth / the depth bound by one, plus near-miss mutants (partial and over-applications, bare "
         "heads, swapped heads).  Observables: membership of every candidate in CFG.depth_constraint and in "
-        "UCFG.depth_constraint, programs(), the (type, depth, symbol) set of grammar.rules, type_request.  Non-trivial = "
-        "candidate set contains both members and non-members and the language has >= 3 programs.")
+        "UCFG.depth_constraint, programs(), the (type, depth, symbol) set of grammar.rules, type_request, and for every "
+        "member the derive_all position list (as (type, depth) pairs, end marker) and reduce_derivations with a collecting "
+        "operator.  Non-trivial = candidate set contains both members and non-members and the language has >= 3 programs.  "
+        "Second kind inf/<family>: the same DSL families (one third stratified so that the unbounded language is finite) "
+        "compiled with CFG.depth_constraint(dsl, treq, -1, n_gram=, constant_types=) or CFG.infinite; candidates are typed "
+        "terms up to depth 4 plus a sample up to depth 6, terms of other types and mutants; observables: membership, "
+        "programs() (-1 iff the model's cleaned grammar has a cycle, else the count; skipped when the model's height "
+        "certificate exceeds 5), the (type, 0, symbol) rule set, type_request, derive_all / reduce_derivations of every member.")
 ASSUMPTIONS = ["types are ground, without sums: Python type equality coincides with structural equality there",
                "DSL primitives have pairwise distinct (name, type); programs have no empty application Function(P, [])",
                "n_gram < 2 cannot carry the parent: compared against the model with n_gram = 2 (known finding c01_ngram1_forbidden)"]
 
 
+def base_ids(t, acc):
+    if t[0] == 0:
+        acc.add(t[1])
+    elif t[0] == 1:
+        base_ids(t[1], acc)
+        base_ids(t[2], acc)
+    else:
+        acc.add(("g", t[1]))
+        for x in t[2:]:
+            base_ids(x, acc)
+    return acc
+
+
+def stratify(rng, dsl):
+    """Drops the primitives that make the type graph cyclic (an argument type
+    mentions a base of rank >= the rank of the returned base), so that the
+    language without depth bound is finite."""
+    order = list(D.BASES)
+    rng.shuffle(order)
+    rank = {b[1]: i for i, b in enumerate(order)}
+
+    def rk(t):
+        ids = base_ids(t, set())
+        if any(isinstance(i, tuple) for i in ids):
+            return None
+        return max(rank[i] for i in ids)
+
+    keep = []
+    for n, t in dsl["prims"]:
+        args, ret = D.arrow_parts(t)
+        r = rk(ret)
+        ra = [rk(a) for a in args]
+        if r is None or any(x is None or x >= r for x in ra):
+            continue
+        keep.append([n, t])
+    names = {n for n, _ in keep}
+    rargs, rret = D.arrow_parts(dsl["request"])
+    rargs = [a for a in rargs if a[0] == 0]
+    tops = [t for _, t in keep if t[0] == 1]
+    if tops and rng.random() < 0.8:
+        rret = D.arrow_parts(rng.choice(tops))[1]
+    forb = [[k, [x for x in v if x in names]] for k, v in dsl["forbidden"] if k[0] in names]
+    return {"family": dsl["family"], "prims": keep, "forbidden": [f for f in forb if f[1]],
+            "request": S.ARROW(*rargs, rret), "const_types": dsl["const_types"]}
+
+
+def uniq_progs(cands):
+    seen = set()
+    uniq = []
+    for c in cands:
+        k = json.dumps(c)
+        if k not in seen:
+            seen.add(k)
+            uniq.append(c)
+    return uniq
+
+
+def gen_inf(rng, tier, n):
+    cases = []
+    for i in range(n):
+        dsl = D.gen_dsl(rng)
+        if i % 3 == 2:
+            dsl = stratify(rng, dsl)
+        elif i % 11 == 5:
+            # request a type without inhabitant when there is one (empty language)
+            dsl = D.gen_dsl(rng, "F5")
+            rargs, _ = D.arrow_parts(dsl["request"])
+            used = []
+            for _, t in dsl["prims"]:
+                a, r = D.arrow_parts(t)
+                used += [x for x in a + [r] if x[0] == 0 and x not in used]
+            for dead in used:
+                # is [dead] without inhabitant once it is neither a variable nor a constant type?
+                alive = [t for t in dsl["const_types"] + rargs if t != dead]
+                grew = True
+                while grew:
+                    grew = False
+                    for _, t in dsl["prims"]:
+                        a, r = D.arrow_parts(t)
+                        if r not in alive and all(x in alive for x in a):
+                            alive.append(r)
+                            grew = True
+                if dead not in alive:
+                    dsl["request"] = S.ARROW(*[a for a in rargs if a != dead], dead)
+                    dsl["const_types"] = [t for t in dsl["const_types"] if t != dead]
+                    break
+        n_gram = rng.choice([1, 2, 2, 2, 3])
+        _, ret = D.arrow_parts(dsl["request"])
+        cap = 80 if tier == "quick" else 150
+        cands = D.terms(dsl, ret, 4, rng, cap)
+        cands += D.terms(dsl, ret, 6, rng, 30)            # deeper than any bound used by the bounded cases
+        for b in D.BASES[:2]:
+            if b != ret:
+                cands += D.terms(dsl, b, 2, rng, 6)
+        cands += D.mutants(rng, cands, dsl, 25)
+        how = rng.choice([-1, -1, -2])                    # through depth_constraint(-1) or CFG.infinite
+        params = [dsl["prims"], dsl["forbidden"], dsl["request"], how, 0, n_gram, dsl["const_types"]]
+        cases.append({"kind": "inf/" + dsl["family"], "data": [params, uniq_progs(cands)]})
+    return cases
+
+
+def is_inf(case):
+    return case["kind"].startswith("inf/")
+
+
 def gen(rng, tier):
     n = 70 if tier == "quick" else 1200
-    cases = []
+    cases = gen_inf(random_child(rng), tier, 45 if tier == "quick" else 800)
     for _ in range(n):
         dsl = D.gen_dsl(rng)
         max_depth = rng.choice([1, 2, 2, 3, 3, 3, 4])
@@ -49,33 +160,63 @@ def gen(rng, tier):
     return cases
 
 
+def random_child(rng):
+    import random
+    return random.Random(rng.getrandbits(64))
+
+
 def effective(case):
     """The case sent to the model: n_gram < 2 is given the context the property needs."""
     params, progs = case["data"]
     p = list(params)
     p[5] = max(2, p[5])
+    if is_inf(case):
+        p[3] = 0          # the unbounded model does not read max_depth / min_var
+        p[4] = 0
     return [p, progs]
 
 
 def to_model(case):
-    return (1, effective(case))
+    return (2 if is_inf(case) else 1, effective(case))
+
+
+SKIP = "not-computed"
 
 
 def model_obs(case, raw):
-    bits, count, triples = raw
+    if is_inf(case):
+        if len(raw) != 6:
+            return {"model_error": raw}
+        empty, bits, count, triples, derivs, pinned = raw
+        # [] = the cleaned grammar has a cycle (the code answers -1); [n]; [-2] = finite, not computed
+        c = -1 if count == [] else (SKIP if count == [-2] else count[0])
+        return {"in": bits, "count": c, "rules": sorted(set(json.dumps(t) for t in triples)),
+                "treq": case["data"][0][2], "derivs": derivs, "empty": empty,
+                "count_pinned": pinned[0] if pinned else -1}
+    bits, count, triples, derivs = raw
     return {"in": bits, "in_u": bits, "count": count, "count_u": count,
-            "rules": sorted(set(json.dumps(t) for t in triples)), "treq": case["data"][0][2]}
+            "rules": sorted(set(json.dumps(t) for t in triples)), "treq": case["data"][0][2], "derivs": derivs}
 
 
 def agree(case, io, mo):
-    if not isinstance(io, dict) or "in" not in io:
+    if not isinstance(io, dict) or "in" not in io or "model_error" in mo:
         return False
     io = dict(io)
     io["rules"] = sorted(set(json.dumps(t) for t in io["rules"]))
+    mo = dict(mo)
+    mo.pop("empty", None)
+    mo.pop("count_pinned", None)
+    if mo["count"] == SKIP:
+        mo.pop("count")
+        io.pop("count", None)
     return io == mo
 
 
 def nontrivial(case, mo):
+    if "model_error" in mo:
+        return False
+    if is_inf(case):
+        return 0 < sum(mo["in"]) < len(mo["in"])
     return 0 < sum(mo["in"]) < len(mo["in"]) and mo["count"] >= 3
 
 
@@ -84,7 +225,9 @@ def describe(case, mo):
     return {"family": case["kind"],
             "dsl": {S.prim_name(n): show_ty(t) for n, t in params[0]},
             "forbidden": [[S.prim_name(k[0]), k[1], [S.prim_name(x) for x in v]] for k, v in params[1]],
-            "request": show_ty(params[2]), "max_depth": params[3], "min_variable_depth": params[4],
+            "request": show_ty(params[2]),
+            "max_depth": {-1: "depth_constraint(-1)", -2: "CFG.infinite"}.get(params[3], params[3]),
+            "min_variable_depth": params[4],
             "n_gram": params[5], "constant_types": [show_ty(t) for t in params[6]],
             "candidates": [[P.show_prog(p), b] for p, b in list(zip(progs, mo["in"]))[:12]],
             "programs()": mo["count"]}
@@ -127,7 +270,7 @@ def shrink(case):
                 yield {"kind": k, "data": [[np_, forb] + params[2:], keep]}
     for i in range(len(params[1])):
         yield {"kind": k, "data": [[params[0], params[1][:i] + params[1][i + 1:]] + params[2:], progs]}
-    if params[3] > 1:
+    if params[3] > 1 and not is_inf(case):
         yield {"kind": k, "data": [params[:3] + [params[3] - 1] + params[4:], progs]}
     if params[6]:
         yield {"kind": k, "data": [params[:6] + [[]], progs]}
@@ -135,18 +278,30 @@ def shrink(case):
 
 def classify(case, io, mo):
     params, progs = case["data"]
+    if "model_error" in mo:
+        return None
     if mo["count"] == 0 and isinstance(io, dict) and str(io.get("crash", "")).startswith("KeyError"):
         return "c01_empty_language_raises"
+    if (is_inf(case) and isinstance(io, dict) and "in" in io and isinstance(mo["count"], int) and mo["count"] >= 0
+            and io.get("count") == -1 and mo["count_pinned"] == -1):
+        # finite language reported as recursive: everything else must agree
+        mo2 = dict(mo)
+        mo2["count"] = -1
+        if agree(case, io, mo2):
+            return "c01_inf_programs_reports_recursive"
     if params[5] < 2 and params[1] and isinstance(io, dict) and "in" in io:
         # the recorded defect explains the disagreement iff the implementation
         # behaves exactly like the model without any forbidden pattern
         from lib import core
-        pinned = [[params[0], []] + params[2:5] + [2] + params[6:], progs]
-        raw = core.run_model(ID, [(1, pinned)])[0]
+        pinned = [[params[0], []] + (params[2:5] if not is_inf(case) else [params[2], 0, 0]) + [2] + params[6:], progs]
+        raw = core.run_model(ID, [(2 if is_inf(case) else 1, pinned)])[0]
         if agree(case, io, model_obs(case, raw)):
             return "c01_ngram1_forbidden"
     return None
 
 
 def theorem_for(case):
-    return "C01_language (contains P p = wt P (returns (request P)) None 0 p), C01_count, C01_count_members, C01_rules_useful"
+    if is_inf(case):
+        return ("C01_recursive_language (contains_inf P p = wt_inf P (returns (request P)) None p), C01_recursive_clean, "
+                "C01_recursive_count, C01_recursive_rules_useful, C01_derive_all, C01_reduce_derivations")
+    return "C01_language (contains P p = wt P (returns (request P)) None 0 p), C01_count, C01_count_members, C01_rules_useful, C01_derive_all, C01_reduce_derivations"
